@@ -1,1 +1,185 @@
 //! Kani harnesses compiled as a child module of vtx/src/player.rs (cfg(kani) only).
+//! Property C20: VTX playback is frame-accurate and independent of play() chunking.
+#![allow(dead_code)]
+use super::*;
+use aym::{AyMode, StereoSample};
+
+const LOG_CAP: usize = 48;
+
+/// Recording sound-chip back end: logs (sample index at which the write happened, register, value)
+/// and returns the running sample index as the sample (left = n, right = n + 0.5).
+pub(crate) struct RecAy {
+    pub n_samples: u32,
+    pub log: [(u32, u8, u8); LOG_CAP],
+    pub log_len: usize,
+    pub overflow: bool,
+}
+
+impl AymBackend for RecAy {
+    type SoundSample = f64;
+
+    fn new(_chip: aym::SoundChip, _mode: AyMode, _frequency: usize, _sample_rate: usize) -> Self {
+        RecAy { n_samples: 0, log: [(0, 0, 0); LOG_CAP], log_len: 0, overflow: false }
+    }
+
+    fn write_register(&mut self, address: u8, value: u8) {
+        if self.log_len < LOG_CAP {
+            self.log[self.log_len] = (self.n_samples, address, value);
+            self.log_len += 1;
+        } else {
+            self.overflow = true;
+        }
+    }
+
+    fn next_sample(&mut self) -> StereoSample<f64> {
+        let s = StereoSample { left: self.n_samples as f64, right: self.n_samples as f64 + 0.5 };
+        self.n_samples += 1;
+        s
+    }
+}
+
+fn mk_vtx(frames: usize, data: &[u8; 42], player_frequency: u8) -> Vtx {
+    let mut v = Vec::with_capacity(42);
+    let mut i = 0;
+    while i < 42 {
+        if i < frames * 14 {
+            v.push(data[i]);
+        }
+        i += 1;
+    }
+    Vtx {
+        chip: SoundChip::AY,
+        stereo: Stereo::ABC,
+        frequency: 1_773_400,
+        player_frequency,
+        loop_start_frame: 0,
+        year: 0,
+        title: String::new(),
+        author: String::new(),
+        from: String::new(),
+        tracker: String::new(),
+        comment: String::new(),
+        frame_data: v,
+    }
+}
+
+/// symbolic (frames 1..3, samples per frame 1..3 via sample_rate / player_frequency)
+fn any_setup() -> (usize, [u8; 42], usize, u8, usize) {
+    let frames: usize = kani::any();
+    kani::assume(frames >= 1 && frames <= 3);
+    let data: [u8; 42] = kani::any();
+    let pf: u8 = kani::any();
+    kani::assume(pf == 1 || pf == 2 || pf == 50);
+    let spf: usize = kani::any();
+    kani::assume(spf >= 1 && spf <= 3);
+    let extra: usize = kani::any();
+    kani::assume(extra < pf as usize);
+    // sample_rate / player_frequency == spf (floor), incl. rates that are not multiples
+    let rate = spf * pf as usize + extra;
+    (frames, data, rate, pf, spf)
+}
+
+// @harness
+// @prop C20
+// @tier quick
+// @timeout 1200
+// @fn Player::new; Player::play (mono path, S = f64); Player::update_ay; Vtx::frame_registers
+// @sym frame count 1..3, all register bytes, player frequency in {1,2,50}, sample rate = spf*pf + (0..pf-1) with spf 1..3, request length 0..10
+// @assert mono playback: frame k's fourteen register values are written exactly at output sample k*floor(rate/player_frequency), registers 0..13 in order, R13 skipped iff its value is 0xFF; total samples produced is frames*spf, after which play() returns 0; sample i of the stream is the chip's i-th sample
+// @bound <= 3 frames x <= 3 samples per frame, request <= 10 samples (unwind 16)
+#[kani::proof]
+#[kani::unwind(16)]
+fn c20_mono_schedule() {
+    let (frames, data, rate, pf, spf) = any_setup();
+    let mut p = Player::<RecAy>::new(mk_vtx(frames, &data, pf), rate, false);
+    kani::assert(p.samples_per_frame == spf, "c20.spf_is_floor_rate_over_player_frequency");
+    let n: usize = kani::any();
+    kani::assume(n <= 10);
+    let mut buf = [-1.0f64; 10];
+    let got = p.play(&mut buf[..n]);
+    let total = frames * spf;
+    kani::assert(got == if n < total { n } else { total }, "c20.mono.sample_count");
+    let mut i = 0;
+    while i < 10 {
+        if i < got {
+            kani::assert(buf[i] == i as f64, "c20.mono.stream_is_chip_stream");
+        } else {
+            kani::assert(buf[i] == -1.0, "c20.mono.rest_of_buffer_untouched");
+        }
+        i += 1;
+    }
+    // register schedule: a symbolic log entry must be the write of a frame at its first sample
+    kani::assert(!p.ay.overflow, "c20.log_fits");
+    let j: usize = kani::any();
+    kani::assume(j < p.ay.log_len);
+    let (at, reg, val) = p.ay.log[j];
+    let k = at as usize / spf;
+    kani::assert(at as usize % spf == 0 && k < frames && reg < 14, "c20.mono.writes_only_at_frame_starts");
+    kani::assert(val == data[k * 14 + reg as usize], "c20.mono.value_is_frame_k_register");
+    kani::assert(!(reg == 13 && val == 0xFF), "c20.mono.r13_ff_means_untouched");
+    // completeness: frames started so far each wrote 14 (or 13) registers
+    let started = if got == 0 { 0 } else { (got - 1) / spf + 1 };
+    let mut want = 0;
+    let mut f = 0;
+    while f < 3 {
+        if f < started {
+            want += if data[f * 14 + 13] == 0xFF { 13 } else { 14 };
+        }
+        f += 1;
+    }
+    // a request that ends exactly on a frame boundary does not start the next frame
+    kani::assert(p.ay.log_len == want, "c20.mono.fourteen_values_per_started_frame");
+    if got < n {
+        let mut more = [0f64; 2];
+        kani::assert(p.play(&mut more) == 0, "c20.mono.end_is_sticky");
+    }
+    kani::cover!(frames == 3 && spf == 3 && n == 10 && got == 9, "whole 3x3 track then end");
+    kani::cover!(started == 2 && data[13] == 0xFF && data[27] != 0xFF, "R13 skipped in frame 0 only");
+    kani::cover!(rate % pf as usize != 0, "rate not a multiple of the player frequency");
+}
+
+// @harness
+// @prop C20
+// @tier quick
+// @timeout 1500
+// @fn Player::play (mono and stereo paths); Player::update_ay
+// @sym track as in c20_mono_schedule, mono/stereo, request length n <= 8 elements, split point a <= n (odd splits in stereo included)
+// @assert the sample stream and the register-write schedule are identical whether the caller asks for n elements at once or for a then n-a: outputs concatenate (in stereo an odd-length request leaves its trailing element untouched and loses nothing), returned counts add up, logs equal
+// @bound <= 3 frames x <= 3 samples/frame, n <= 8 (unwind 16)
+#[kani::proof]
+#[kani::unwind(16)]
+fn c20_chunking_independence() {
+    let (frames, data, rate, pf, _spf) = any_setup();
+    let stereo: bool = kani::any();
+    let mut p1 = Player::<RecAy>::new(mk_vtx(frames, &data, pf), rate, stereo);
+    let mut p2 = Player::<RecAy>::new(mk_vtx(frames, &data, pf), rate, stereo);
+    let n: usize = kani::any();
+    let a: usize = kani::any();
+    kani::assume(n <= 8 && a <= n);
+    // in stereo a caller must hand over whole (left,right) pairs to make progress: split on a pair
+    // boundary or not - both are allowed by the API; an odd `a` just leaves one element unused
+    let mut whole = [-1.0f64; 8];
+    let g = p1.play(&mut whole[..n]);
+    let mut part = [-1.0f64; 8];
+    let g1 = p2.play(&mut part[..a]);
+    // second call continues where the first one stopped writing
+    let g2 = p2.play(&mut part[g1..n]);
+    kani::assert(g1 + g2 == g, "c20.chunk.counts_add_up");
+    let mut i = 0;
+    while i < 8 {
+        if i < g1 + g2 {
+            kani::assert(part[i] == whole[i], "c20.chunk.same_stream");
+        }
+        i += 1;
+    }
+    // same register schedule up to what was played
+    let j: usize = kani::any();
+    kani::assume(j < p2.ay.log_len);
+    kani::assert(j < p1.ay.log_len || g1 + g2 < g, "c20.chunk.no_extra_writes");
+    if j < p1.ay.log_len {
+        kani::assert(p1.ay.log[j] == p2.ay.log[j], "c20.chunk.same_register_schedule");
+    }
+    kani::cover!(stereo && a % 2 == 1 && g2 > 0, "odd split in stereo");
+    kani::cover!(!stereo && a == 1 && n == 8 && g == 8, "length-1 first chunk");
+    kani::cover!(g < n, "track ends inside the request");
+}
